@@ -25,6 +25,15 @@ CHECKS = {
             'antisymmetry laws, blank clauses against an explicit table. Held on the executions observed.',
             'Trusted: fractions/datetime of CPython. Mixed-kind comparisons and an ordering of texts are not asserted '
             '(statement silent).'),
+    'C01': ('runtime monitoring: boundary oracle = independent precedence-climbing evaluator on the same text; '
+            'parser/lexer conservation monitors',
+            'Every operator chain of length <=2 (thorough: <=3 sampled, plus random trees) with sign/percent/bracket '
+            'decorations is translated by the real Parser and evaluated under several override valuations; the value is '
+            'compared with vf/xlref (Excel precedence, left associativity, blank=0, literals = nearest double, exact for '
+            'literal sweeps). Conservation monitors on Lexer.parse / EntryPointToken.get prove that the whole text '
+            'was consumed whenever code was emitted. Held on the executions observed.',
+            'Trusted: vf/xlref as the reading of the precedence table in the statement. Operand values are sampled '
+            '(distinct primes, a negative, a decimal, a blank), not all doubles.'),
 }
 
 PENDING_REASON = 'check not built yet in this round (see DESIGN.md section 4); will be claimed once its monitor runs clean'
